@@ -132,3 +132,13 @@ Definition accept (eps : F) (K : list (nat * nat * F)) (f : list F) (o : list (o
   then Some (strip o) else None.
 
 End Recover.
+
+(* Solution.NodeReactions: one entry per externally constrained structural node, and for no
+   other node.  nodes: (index, external constraint). *)
+Section Reactions.
+Context {F : Type} {O : NumOps F} {C : NumCmp F}.
+Definition is_constrained (l : link) : bool := lk_dx l || lk_dy l || lk_rz l.
+Definition node_reactions (eps : F) (bars : list (pbar F)) (u : list F) (nodes : list (nat * link))
+  : list (nat * tor F) :=
+  map (fun n => (fst n, reaction_at eps bars u (fst n))) (filter (fun n => is_constrained (snd n)) nodes).
+End Reactions.
